@@ -96,6 +96,27 @@ pub const FLOAT_POOL: &[f64] = &[
     7.006492321624085e-46,
 ];
 
+/// Source-derived dictionary (tools/mkdict.py): the integer and string literals of deserr's current sources.
+pub struct Dict {
+    pub ints: Vec<u64>,
+    pub strs: Vec<String>,
+}
+
+pub fn dict() -> &'static Dict {
+    static D: std::sync::OnceLock<Dict> = std::sync::OnceLock::new();
+    D.get_or_init(|| {
+        let p = crate::evidence::verif_dir().join("work").join("dict.json");
+        let mut d = Dict { ints: vec![], strs: vec![] };
+        if let Ok(s) = std::fs::read_to_string(p) {
+            if let Ok(j) = serde_json::from_str::<serde_json::Value>(&s) {
+                d.ints = j["ints"].as_array().map(|a| a.iter().filter_map(|x| x.as_u64()).collect()).unwrap_or_default();
+                d.strs = j["strs"].as_array().map(|a| a.iter().filter_map(|x| x.as_str().map(|s| s.to_string())).collect()).unwrap_or_default();
+            }
+        }
+        d
+    })
+}
+
 impl<'a, R: Rng> Gen<'a, R> {
     pub fn new(rng: &'a mut R, cfg: GenCfg) -> Self {
         Gen { rng, cfg, faults: 0 }
@@ -132,6 +153,9 @@ impl<'a, R: Rng> Gen<'a, R> {
                 let n = 1 + self.below(8);
                 (0..n).map(|_| *self.pick(&['a', 'b', 'c', 'X', 'Y', '0', '9', '_']) ).collect()
             }
+        } else if self.chance(0.03) && !dict().strs.is_empty() {
+            // a string literal of deserr's own source text
+            self.pick(&dict().strs).clone()
         } else if self.chance(0.03) {
             let n = 20 + self.below(40);
             (0..n).map(|_| *self.pick(&['a', 'b', 'Z', '0', '_', ' ', 'é', '日'])).collect()
@@ -162,9 +186,21 @@ impl<'a, R: Rng> Gen<'a, R> {
     }
 
     pub fn int_any(&mut self) -> PV {
-        let c = self.below(11);
+        let c = self.below(12);
         if c == 10 {
             return self.int_midpoint();
+        }
+        if c == 11 {
+            // a constant from deserr's own source text, or one off
+            let d = dict();
+            if !d.ints.is_empty() {
+                let v = *self.pick(&d.ints) as i128 + [0i128, 0, 0, -1, 1][self.below(5)];
+                let v = if self.chance(0.15) { -v } else { v };
+                if v >= i64::MIN as i128 && v <= u64::MAX as i128 {
+                    return PV::int(v);
+                }
+            }
+            return PV::int(*self.pick(INT_POOL));
         }
         if c < 6 {
             PV::int(*self.pick(INT_POOL))
@@ -367,6 +403,14 @@ impl<'a, R: Rng> Gen<'a, R> {
         // fast paths, unstable sorts) needs more than a handful of elements
         if self.below(40) == 0 {
             return 8 + self.below(26);
+        }
+        if self.below(25) == 0 {
+            // a length that occurs as a number in deserr's sources (size thresholds), or one off
+            let small: Vec<u64> = dict().ints.iter().copied().filter(|v| *v <= 48).collect();
+            if !small.is_empty() {
+                let v = *self.pick(&small) as usize;
+                return (v + [0usize, 0, 1][self.below(3)]).saturating_sub(self.below(2));
+            }
         }
         match self.below(10) {
             0 | 1 => 0,
